@@ -12,7 +12,7 @@ for p in 01 02 03 04 05 06 07 08 09 10 11 12 13 14 15 16 17 18 19 20; do
   cat > /tmp/mut/prompts/N${p}$L.txt <<EOP
 You are helping evaluate a verification framework for the Go project IrineSistiana/mosproxy (a DNS forwarder/proxy).
 
-Your scratch git worktree of the repository is at /tmp/mut/N${p}$L (already created). Work ONLY inside it; never read or touch /repo or /verif or other directories under /tmp/mut. The sandbox has no network. Before any go command run:
+Your scratch git worktree of the repository is at /tmp/mut/N${p}$L (already created). Work ONLY inside it (cd into it before every git or go command; your shell may start elsewhere); never read or touch /repo or /verif or other directories under /tmp/mut; never use \`git stash\` or \`git reset\` (to return to the clean tree: \`git checkout -- .\` inside your worktree). The sandbox has no network. Before any go command run:
   export GOFLAGS=-mod=mod GOPROXY=off GOSUMDB=off GOTOOLCHAIN=local GOWORK=off
 
 In /tmp/mut/N${p}$L/_in/ you find broken.diff — a change to the repository that is dressed as a refactoring but hides a behavioural slip — and broken_notes.md, its author's explanation of the refactoring and of the slip.
